@@ -172,6 +172,12 @@ def run(ctx):
     ctx.run_rule("R2", rule_R2, f)
     ctx.run_rule("R3", rule_R3, f)
     ctx.run_rule("R4", rule_R4, f)
+    # families are merged only under their own exact name, and a descriptor (name + const labels) is admitted for one collector only
+    from . import C06
+    ctx.rule("R5", "merge key and admission (shared with C07.R2 `by-name` and C06.R1/R2/R4): gather merges families in a map keyed by the family's own name, unchanged; "
+                   "register admits a descriptor id once and unregister releases ids only of the collector it removes — otherwise collectors of different kinds meet in one family")
+    ctx.run_rule("R5", lambda c: C06._as(c, "R5", lambda s_: (C07.rule_R2(s_, f), C06.rule_R1(s_, f), C06.rule_R2(s_, f), C06.rule_R4(s_, f)),
+                                         keep=lambda k: "by-name-btreemap" in k or ".R1|" in k and "C07" not in k or ".R4|" in k or "check-a-id" in k))
     if ctx.tier == "thorough":
         g = ctx.facts("plain")
         ctx.run_rule("R2@plain", lambda c: rule_R2(c, g))
